@@ -317,7 +317,7 @@ impl Check for C05 {
         vec!["specialisations_compared", "ring:Z[H]", "ring:Z[T]", "ring:Z[H,T]", "ring:Q[H]", "ring:F2[H]", "ring:Z", "ring:Q", "ring:F2", "ring:F3"]
     }
     fn max_steps(&self) -> usize { 20_000_000 }
-    fn runs(&self, tier: &str) -> u64 { if tier == "quick" { 5_000 } else { 1_000_000 } }
+    fn runs(&self, tier: &str) -> u64 { if tier == "quick" { 15_000 } else { 1_000_000 } }
     fn gen_case(&self, rng: &mut Rng, _idx: u64, tier: &str) -> Value {
         let max_x = if tier == "quick" { 8 } else { 10 };
         let (name, pd) = diag::draw(rng, max_x);
